@@ -9,6 +9,7 @@ check against /repo with the patch applied and records everything in /verif/seed
 import json, os, re, shutil, subprocess, sys, time
 
 ENV = dict(os.environ, GOFLAGS="-mod=mod", GOPROXY="off", GOSUMDB="off", GOTOOLCHAIN="local")
+WT = None
 SUITE = "go test -vet=off -count=1 ./sm2/ ./sm3/ ./sm4/... ./x509/ ./pkcs12/ ./gmtls/ ./gmtls/websvr/"
 
 
@@ -23,6 +24,10 @@ def main():
     if "--keep-as" in sys.argv:
         name = sys.argv[sys.argv.index("--keep-as") + 1]
     wt = "/tmp/wt/" + prop
+    if "--worktree" in sys.argv:
+        wt = sys.argv[sys.argv.index("--worktree") + 1]
+    global WT
+    WT = wt
     patch = os.path.join(mdir, "patch.diff")
     demos = [f for f in os.listdir(mdir) if f.endswith(".go")]
     if not demos and os.path.isdir(os.path.join(mdir, "demo")):
@@ -31,7 +36,7 @@ def main():
         print("no demo"); return 2
     demo = os.path.join(mdir, demos[0])
     head = open(demo).read(3000)
-    m = re.search(r"(/tmp/wt/%s/\S+\.go)" % prop, head)
+    m = re.search(r"(%s/\S+\.go)" % re.escape(wt), head)
     runm = re.search(r"(go (?:test|run) [^\n]*)", head)
     if not m or not runm:
         print("cannot parse demo header; dest=%s run=%s" % (m, runm)); return 2
@@ -86,9 +91,11 @@ def finish(rec, name, mdir, confirmed):
     # The check is run against the scratch worktree (same commit as /repo HEAD) with the patch applied, through
     # VERIF_ALT_REPO, so that /repo itself is never touched while other runs may be rebuilding from it.
     # scripts/run_all_seeds.sh later re-runs every kept seed against /repo itself (apply, check, undo).
-    wt = "/tmp/wt/" + prop
-    _, h1 = sh("git rev-parse HEAD", "/repo"); _, h2 = sh("git rev-parse HEAD", wt)
+    wt = WT
+    _, h1 = sh("git rev-parse HEAD", "/repo")
     sh("git checkout -- . && git clean -fdq", wt)
+    sh("git checkout -q --detach %s" % h1.strip(), wt)  # the check runs against the current /repo commit + the patch
+    _, h2 = sh("git rev-parse HEAD", wt)
     rc, out = sh("git apply %s" % patch, wt)
     if rc != 0 or h1.strip() != h2.strip():
         rec["check"] = {"applies_to_repo_head": False, "note": out[-300:] + " head %s vs %s" % (h1.strip()[:8], h2.strip()[:8])}
